@@ -331,11 +331,6 @@ func TestStructural(t *testing.T) {
 		if ss0 == nil {
 			continue
 		}
-		s := ss0[0]
-		root, err := cbormut.Parse(s.enc)
-		if err != nil {
-			t.Fatalf("harness: valid encoding of %s does not parse: %v", e.name, err)
-		}
 		type obs struct {
 			example string
 			sites   map[string]bool
@@ -343,63 +338,73 @@ func TestStructural(t *testing.T) {
 		}
 		failing := map[string]*obs{} // pin key -> what was seen
 		seen := map[string]bool{}
-		for _, p0 := range positions(root) {
-			if seen[p0.class] {
-				continue
+		// all samples: a later sample contributes the field classes the earlier ones do not have
+		for _, s := range ss0 {
+			root, err := cbormut.Parse(s.enc)
+			if err != nil {
+				t.Fatalf("harness: valid encoding of %s does not parse: %v", e.name, err)
 			}
-			seen[p0.class] = true
-			for _, op := range structuralOps {
-				r := root.Clone()
-				var target pos
-				for _, q := range positions(r) {
-					if q.path == p0.path {
-						target = q
-						break
-					}
-				}
-				if !applyStructural(&r, target, op) {
+			for _, p0 := range positions(root) {
+				if seen[p0.class] {
 					continue
 				}
-				b := r.Encode()
-				v := judge(e, b)
-				if v.viol != "" {
-					key := pinString(e, op, p0.class, v.kind)
-					o := failing[key]
-					if o == nil {
-						o = &obs{sites: map[string]bool{}}
-						failing[key] = o
+				seen[p0.class] = true
+				for _, op := range structuralOps {
+					r := root.Clone()
+					var target pos
+					for _, q := range positions(r) {
+						if q.path == p0.path {
+							target = q
+							break
+						}
 					}
-					o.n++
-					if v.site != "" {
-						o.sites[v.site] = true
+					if !applyStructural(&r, target, op) {
+						continue
 					}
-					if o.example == "" || len(b) < 24 {
-						o.example = fmt.Sprintf("%s@%s input %s", op, p0.class, vlib.Hex(b))
+					b := r.Encode()
+					v := judge(e, b)
+					if v.viol != "" {
+						key := pinString(e, op, p0.class, v.kind)
+						o := failing[key]
+						if o == nil {
+							o = &obs{sites: map[string]bool{}}
+							failing[key] = o
+						}
+						o.n++
+						if v.site != "" {
+							o.sites[v.site] = true
+						}
+						if o.example == "" || len(b) < 24 {
+							o.example = fmt.Sprintf("%s@%s input %s", op, p0.class, vlib.Hex(b))
+						}
+						if collectMode && v.site != "" {
+							fmt.Printf("SITE %s %s\n", key, v.site)
+						}
+						if !tolerated(e, op, p0.class, v.kind, b) {
+							t.Fatalf("%s: %s at %s of a valid encoding: %s\nvalid %s\ninput %s", e.name, op, p0.path, v.viol, hx(s.enc), hx(b))
+						}
+						vlib.Case(test, vlib.Desc(e.name, "V", op, p0.class), true, "op="+op, "outcome=KNOWN-"+v.kind, "family="+e.family)
+						continue
 					}
-					if collectMode && v.site != "" {
-						fmt.Printf("SITE %s %s\n", key, v.site)
+					cls := []string{"op=" + op, "outcome=" + v.class, "family=" + e.family}
+					if v.note != "" {
+						cls = append(cls, "note="+v.note)
 					}
-					if !tolerated(e, op, p0.class, v.kind, b) {
-						t.Fatalf("%s: %s at %s of a valid encoding: %s\nvalid %s\ninput %s", e.name, op, p0.path, v.viol, hx(s.enc), hx(b))
-					}
-					vlib.Case(test, vlib.Desc(e.name, "V", op, p0.class), true, "op="+op, "outcome=KNOWN-"+v.kind, "family="+e.family)
-					continue
+					vlib.Case(test, vlib.Desc(e.name, "V", op, p0.class), true, cls...)
 				}
-				cls := []string{"op=" + op, "outcome=" + v.class, "family=" + e.family}
-				if v.note != "" {
-					cls = append(cls, "note="+v.note)
-				}
-				vlib.Case(test, vlib.Desc(e.name, "V", op, p0.class), true, cls...)
 			}
 		}
-		// report, per pinned (type, operator group, kind), whether it was still observed
+		// report, per pinned (type, class, operator group, kind), whether it was still observed
 		prefix := e.pinKey() + "|"
 		for _, k := range pinned {
 			if !strings.HasPrefix(k, prefix) {
 				continue
 			}
 			parts := strings.Split(k, "|")
-			id := "C12-" + parts[1] + "-" + parts[2]
+			if len(parts) != 4 {
+				t.Fatalf("harness: malformed pin %q", k)
+			}
+			id := "C12-" + parts[2] + "-" + parts[3]
 			if o := failing[k]; o != nil {
 				var sites []string
 				for st := range o.sites {
@@ -413,7 +418,7 @@ func TestStructural(t *testing.T) {
 		}
 	}
 	reportKnown()
-	vlib.Exhaustive("every (field class, structural operator) placement on the first sample of every registry entry")
+	vlib.Exhaustive("every (field class, structural operator) placement over the samples of every registry entry")
 }
 
 func sitesNote(sites []string) string {
@@ -532,40 +537,40 @@ func hostileInputs() map[string][]byte {
 		bigMap = append(bigMap, 0x1a, byte(i>>24), byte(i>>16), byte(i>>8), byte(i), 0x00)
 	}
 	return map[string][]byte{
-		"empty":               {},
-		"null":                {0xf6},
-		"undefined":           {0xf7},
-		"selfdescribed-null":  {0xd9, 0xd9, 0xf7, 0xf6},
-		"empty-map":           {0xa0},
-		"empty-array":         {0x80},
-		"zero":                {0x00},
-		"break":               {0xff},
-		"huge-array-header":   {0x9b, 0x7f, 0xff, 0xff, 0xff, 0xff, 0xff, 0xff, 0xff},
-		"huge-map-header":     {0xbb, 0x7f, 0xff, 0xff, 0xff, 0xff, 0xff, 0xff, 0xff},
-		"huge-bytes-header":   {0x5b, 0x7f, 0xff, 0xff, 0xff, 0xff, 0xff, 0xff, 0xff},
-		"huge-text-header":    {0x7b, 0xff, 0xff, 0xff, 0xff, 0xff, 0xff, 0xff, 0xff},
-		"array-2^32":          {0x9a, 0xff, 0xff, 0xff, 0xff},
-		"nest-33-arrays":      deep(33, 4),
-		"nest-40-maps":        deep(40, 5),
-		"nest-200-tags":       append(bytes.Repeat([]byte{0xc6}, 200), 0x00),
-		"array-131073":        big,
-		"map-131073":          bigMap,
-		"float-nan":           {0xf9, 0x7e, 0x00},
-		"float-inf":           {0xf9, 0x7c, 0x00},
-		"float-neg-inf":       {0xfb, 0xff, 0xf0, 0, 0, 0, 0, 0, 0},
-		"bignum":              {0xc2, 0x49, 1, 0, 0, 0, 0, 0, 0, 0, 0},
-		"neg-bignum":          {0xc3, 0x41, 0x01},
-		"time-tag":            {0xc1, 0x1a, 0x51, 0x4b, 0x67, 0xb0},
-		"tag-2^64-1":          {0xdb, 0xff, 0xff, 0xff, 0xff, 0xff, 0xff, 0xff, 0xff, 0xa0},
-		"indef-array":         {0x9f, 0xff},
-		"indef-map":           {0xbf, 0xff},
-		"indef-bytes":         {0x5f, 0x41, 0x00, 0xff},
-		"invalid-utf8-key":    {0xa1, 0x62, 0xc3, 0x28, 0x00},
-		"simple-255":          {0xf8, 0xff},
-		"reserved-info-28":    {0x1c},
-		"map-bytes-key":       {0xa1, 0x41, 0x00, 0x00},
-		"negative-int":        {0x3b, 0xff, 0xff, 0xff, 0xff, 0xff, 0xff, 0xff, 0xff},
-		"uint64-max":          {0x1b, 0xff, 0xff, 0xff, 0xff, 0xff, 0xff, 0xff, 0xff},
+		"empty":              {},
+		"null":               {0xf6},
+		"undefined":          {0xf7},
+		"selfdescribed-null": {0xd9, 0xd9, 0xf7, 0xf6},
+		"empty-map":          {0xa0},
+		"empty-array":        {0x80},
+		"zero":               {0x00},
+		"break":              {0xff},
+		"huge-array-header":  {0x9b, 0x7f, 0xff, 0xff, 0xff, 0xff, 0xff, 0xff, 0xff},
+		"huge-map-header":    {0xbb, 0x7f, 0xff, 0xff, 0xff, 0xff, 0xff, 0xff, 0xff},
+		"huge-bytes-header":  {0x5b, 0x7f, 0xff, 0xff, 0xff, 0xff, 0xff, 0xff, 0xff},
+		"huge-text-header":   {0x7b, 0xff, 0xff, 0xff, 0xff, 0xff, 0xff, 0xff, 0xff},
+		"array-2^32":         {0x9a, 0xff, 0xff, 0xff, 0xff},
+		"nest-33-arrays":     deep(33, 4),
+		"nest-40-maps":       deep(40, 5),
+		"nest-200-tags":      append(bytes.Repeat([]byte{0xc6}, 200), 0x00),
+		"array-131073":       big,
+		"map-131073":         bigMap,
+		"float-nan":          {0xf9, 0x7e, 0x00},
+		"float-inf":          {0xf9, 0x7c, 0x00},
+		"float-neg-inf":      {0xfb, 0xff, 0xf0, 0, 0, 0, 0, 0, 0},
+		"bignum":             {0xc2, 0x49, 1, 0, 0, 0, 0, 0, 0, 0, 0},
+		"neg-bignum":         {0xc3, 0x41, 0x01},
+		"time-tag":           {0xc1, 0x1a, 0x51, 0x4b, 0x67, 0xb0},
+		"tag-2^64-1":         {0xdb, 0xff, 0xff, 0xff, 0xff, 0xff, 0xff, 0xff, 0xff, 0xa0},
+		"indef-array":        {0x9f, 0xff},
+		"indef-map":          {0xbf, 0xff},
+		"indef-bytes":        {0x5f, 0x41, 0x00, 0xff},
+		"invalid-utf8-key":   {0xa1, 0x62, 0xc3, 0x28, 0x00},
+		"simple-255":         {0xf8, 0xff},
+		"reserved-info-28":   {0x1c},
+		"map-bytes-key":      {0xa1, 0x41, 0x00, 0x00},
+		"negative-int":       {0x3b, 0xff, 0xff, 0xff, 0xff, 0xff, 0xff, 0xff, 0xff},
+		"uint64-max":         {0x1b, 0xff, 0xff, 0xff, 0xff, 0xff, 0xff, 0xff, 0xff},
 	}
 }
 
